@@ -26,6 +26,9 @@ CHECKS = {
  "C18": ("exploration", "Atomicity: concurrent script clients (EVAL/EVALSHA/EVALNA) write two objects per call with a unique token while plain writers and single-SCAN readers run; monitors: no SCAN sees a half-applied script, no foreign log entry between the two writes of an atomic script (EVALNA interleavings are counted to show the monitor can see them), porcupine with each script as one model step. Read-only: a hostile script list under EVALRO/EVALROSHA with dump and log-size differential. Sandbox: everything reachable from the script globals is enumerated from Go (verif build) and probed from inside scripts for every Lua 5.1 / gopher-lua library name and compared with the documented allow-list; creation of globals and survival of per-call globals (also on failing calls, observed through WHEREEVAL on the pooled state) are probed.",
          "The allow-list coded in the check is the documented environment; kmodel for the porcupine step; restart/follower reproduction of script writes is decided by C03/C06.",
          "runtime monitoring: recorded-history checkers (reader snapshots, log adjacency, porcupine) + differential probes + in-process enumeration of the Lua environment", "4/C18"),
+ "C14": ("exploration", "Sequences of SET EX / EXPIRE / PERSIST / overwrite / delete / rename / FSET / JSET at PRNG phases relative to the 100 ms sweeper run against real servers; a time-disciplined oracle judges 'never early' against the client's send time, 'eventually gone' against ack time + T + 5 s while PING answers within 100 ms (reads straddling a deadline are not judged), TTL replies as intervals, successors surviving a predecessor's deadline (stale timers), and that every expiry is a logged DEL observed by fences (del message), a caught-up follower, and a restart; hooks/channels with EX likewise; bulk expiry of 50-500 objects.",
+         "Client monotonic clock vs server wall clock (20 ms guard band, no clock steps); machine load yields no judgement or inconclusive; known finding restart:ttl-rearmed.",
+         "runtime monitoring: bounded-progress oracle over polled reads, log/fence/follower/restart observers", "4/C14"),
 }
 def main():
     old = json.load(open('/verif/MANIFEST.json'))
